@@ -21,6 +21,12 @@ MULTILINE = [
     "import functools\n\n@functools.wraps(f)\n@other\ndef login(user,\n          password='hunter2'):\n    return user\n",
     "import ssl\nclass K:\n    @staticmethod\n    def connect(host, version=ssl.PROTOCOL_SSLv3,\n                token='tok'):\n        pass\n\n    @property\n    def p(self, password='x'): return 1\n",
     "@decorate(\n    option=1,\n)\nasync def handler(request, secret='s3cret'):\n    try:\n        pass\n    except Exception:\n        pass\n",
+    # a dict-item secret whose value starts on a later line than the key (seeded change C10-m5 reported the value's line with the key's range)
+    "cfg['password'] = (\n    'hunter2')\nd['token'] = \\\n    'tok'\nconf['secret'] = \\\n    (\n        's3cret'\n    )\n",
+    # nosec comments on a later line of a bracketed construct: inserting an ORDINARY comment line inside the brackets, above the marker, changes nothing
+    # (seeded change C10-m6: the first commented line of the range decided, so an ordinary comment shadowed the marker)
+    "import hashlib\nh = hashlib.md5(\n    data,\n    more,\n)  # nosec\nx = 1\n",
+    "import subprocess\nsubprocess.Popen('ls *',\n                 env=e,\n                 shell=True\n                 )  # nosec B602, B607\nsubprocess.call(c,\n    shell=True)  # nosec B604\n",
 ]
 
 
